@@ -24,7 +24,13 @@ RULE = ("every CONFIGURABLE option x every subset of the places that can set it 
         "files / OFX Home tables incl. values with '%', '%%', '%(x)s', edge blanks, odd booleans and ints, lists of "
         "length 0-4 with members containing , ' \" [ ] \\ blanks; real argv through make_argparser; the real fi.cfg for "
         "sampled server nicknames; write/rerun sequences of length <= 4 on one file.  A case is non-trivial when "
-        "merge_config returned a mapping; distinct by (namespace, files, table).")
+        "merge_config returned a mapping; distinct by (namespace, files, table).  The INI text format: parser states "
+        "built through the API (clean and odd section names / option names / values incl. multi-line values, blanks, "
+        "comment-like lines, CR) -> write() text byte for byte, that text read back (read_string and through a real file); "
+        "INI texts from the writer's range and hand-edited shapes (':' delimiter, comments, blank and continuation lines, "
+        "duplicate sections/options, missing header, mixed-case keys, '%', ']' in headers, odd white space) -> sections / "
+        "options / values or the error class, on a fresh parser and on one that already read another text; the witnesses "
+        "of every clause of the proved round-trip guard replayed on the real parser.")
 
 OH_KEYS = ("url", "org", "fid", "brokerid")
 LIST_BAD = set(",'\\")
@@ -775,6 +781,10 @@ def run(ctx):
         ctx.stat("leaf:" + op)
         ctx.compare("ofxget." + op, {"op": op, "arg": x}, impl, model)
 
+    # ------------------------------------------------------------------ F. the INI text format (write / read)
+    from corr import c18_initext
+    c18_initext.run_ini(ctx, og, R.env.dir)
+
     # ------------------------------------------------------------------ spec twin vs the independent reference
     replies = ctx.model.ask([q[0] for q in spec_queue])
     for (ln, want, case, k), rep in zip(spec_queue, replies):
@@ -789,6 +799,10 @@ def run(ctx):
 def replay(ctx, data):
     R = Runner(ctx)
     c = data.get("case") or data.get("first_disagreement", {}).get("case")
+    if isinstance(c, dict) and ("text" in c or "sections" in c) and "ns" not in c:
+        from corr import c18_initext
+        print("replay (INI text) ->", c18_initext.replay_ini(ctx, R.env.ofxget, c))
+        return
     for key in ("write", "rerun"):
         if isinstance(c, dict) and key in c:
             cc = c[key]
